@@ -62,6 +62,8 @@ func slowCtors(r *core.Run) {
 // ---- C03: transients injected into consumers that are constructed concurrently --------
 
 func runC03Concurrent(c *eng.Ctx, next func() (int, bool)) {
+	rt.SetNoise(100)
+	defer rt.SetNoise(0)
 	spec := &core.Spec{Regs: []core.Reg{
 		core.MkReg("Leaf_K1_a", godi.Transient),
 		core.MkReg("Twice_K0", godi.Transient),  // K0(K1, K1)
@@ -118,6 +120,8 @@ func runC03Concurrent(c *eng.Ctx, next func() (int, bool)) {
 // ---- C18: built-ins injected while the same constructor runs in other scopes -----------
 
 func runC18Concurrent(c *eng.Ctx, next func() (int, bool)) {
+	rt.SetNoise(100)
+	defer rt.SetNoise(0)
 	spec := &core.Spec{Regs: []core.Reg{
 		core.MkReg("Leaf_K0_a", godi.Transient),
 		core.MkReg("BIdep_S6", godi.Transient), // S6(Scope, K0, Context)
@@ -176,6 +180,8 @@ func runC18Concurrent(c *eng.Ctx, next func() (int, bool)) {
 // ---- C15: a failing scoped construction while other goroutines are queued behind it ------
 
 func runC15Concurrent(c *eng.Ctx, next func() (int, bool)) {
+	rt.SetNoise(100)
+	defer rt.SetNoise(0)
 	spec := &core.Spec{Regs: []core.Reg{
 		core.MkReg("Leaf_K0_a", godi.Scoped),   // K0 (may fail: error result)
 		core.MkReg("PosA_1_1", godi.Scoped),    // K1(K0)
@@ -288,6 +294,8 @@ func asPanic(err error, target **godi.ConstructorPanicError) bool {
 // ---- C11: first resolutions of a dependency and its dependent race inside one scope ------
 
 func runC11ResolveRace(c *eng.Ctx, next func() (int, bool)) {
+	rt.SetNoise(100)
+	defer rt.SetNoise(0)
 	spec := &core.Spec{Regs: []core.Reg{
 		core.MkReg("Leaf_K0_a", godi.Scoped),    // B
 		core.MkReg("PosA_1_1", godi.Scoped),     // A(B)
